@@ -1315,6 +1315,22 @@ func (t *ftr) ioStmt(b *strings.Builder, ind string, st ast.Stmt, res *ty) bool 
 					}
 					fmt.Fprintf(b, "%sst := st.t%s %s %s\n", ind, m, tn, x.s)
 					return true
+				case (m == "Skip" || m == "Skipf" || m == "SkipNow") && t.sp.fx == "st":
+					// t.Skip(args...) / t.Skipf(format, args...) / t.SkipNow(): recorded as an event of the test;
+					// the rendering of the arguments is testing's business and is not modelled
+					want := map[string]int{"Skip": 1, "Skipf": 2, "SkipNow": 0}[m]
+					if len(c.Args) != want || (want > 0 && !c.Ellipsis.IsValid()) {
+						t.stmtFail(b, ind, "t.%s with arguments other than the wrapper's own", m)
+						return true
+					}
+					for _, a := range c.Args {
+						if id, ok := a.(*ast.Ident); !ok || t.lookup(id.Name) == nil {
+							t.stmtFail(b, ind, "t.%s argument %s is not a parameter", m, t.src(a))
+							return true
+						}
+					}
+					fmt.Fprintf(b, "%sst := st.t%s %s\n", ind, m, tn)
+					return true
 				case m == "Cleanup" && len(c.Args) == 1 && t.sp.fx == "st":
 					// t.Cleanup(func() { <registry>.reset(args) })
 					if fl, ok := c.Args[0].(*ast.FuncLit); ok && len(fl.Body.List) == 1 && len(fl.Type.Params.List) == 0 {
